@@ -405,9 +405,38 @@ def r9(ctx, facts):
         raise AnchorLost("MetadataUpdate::merge_* functions not found (%d payload arguments)" % n)
 
 
+def r10(ctx, facts):
+    """user-visible clause: a refresh is answered only after the state it fetched was published"""
+    r = ctx.rule("R10", "a refresh request is answered Ok only after the refreshed cluster state was published", floor=1)
+    from ..util import closure_family, must_pass
+    b = facts.one(r"^scylla::cluster::worker::ClusterWorker::apply_metadata_update::\{closure#0\}$")
+    pubs = [c.bb for c in b.calls_to("ClusterWorker::update_cluster_state", "ArcSwapAny::<T, S>::store", "arc_swap::ArcSwapAny::<T, S>::swap")]
+    if not pubs:
+        raise AnchorLost("apply_metadata_update: the new cluster state is not published (update_cluster_state / ArcSwap::store not found)")
+    n = 0
+    for body in closure_family(facts, b):
+        for bb, c in body.calls():
+            if bb not in body.live_blocks or not (c.name or "").endswith("oneshot::Sender::<T>::send"):
+                continue
+            n += 1
+            if body.path != b.path:
+                # a reply sent from a closure (for_each): the closure must be created after the publication
+                from ..util import creation_site
+                site = creation_site(facts, body)
+                ok = site is not None and site[0].path == b.path and must_pass(b, facts, pubs, site[1])
+                r.instance("reply-after-publication", ok, "a refresh reply is sent from a closure that is not known to run after the new state was stored", c.span)
+                continue
+            ok = must_pass(b, facts, pubs, bb)
+            r.instance("reply-after-publication", ok,
+                       "a refresh request is answered before update_cluster_state(): refresh_metadata() returns while get_cluster_state() still shows the old topology "
+                       "(the pools of new nodes are awaited in between, so the requester really runs first)", c.span)
+    if n == 0:
+        raise AnchorLost("apply_metadata_update: no reply on the refresh response channels found")
+
+
 def check(ctx):
     facts = inline_view(ctx.facts("default"))
-    for fn in (r1_r4, r2, r3, r5, r6, r7, r8, r9):
+    for fn in (r1_r4, r2, r3, r5, r6, r7, r8, r9, r10):
         try:
             fn(ctx, facts)
         except AnchorLost as ex:
